@@ -31,6 +31,9 @@ def spec_from_case(case):
     if sp.get("line_mode"):
         for im in spec["images"]:
             im["line_mode"] = sp["line_mode"]
+    if sp.get("twin_headers"):
+        for im in spec["images"][1:]:
+            im["twin_header"] = True
     for k, v in sp.get("leader", {}).items():
         spec["leader"][k] = v
     for k, v in sp.get("vol", {}).items():
